@@ -220,4 +220,171 @@ theorem RunLines_linked {cfg : Cfg} {re : Re} {i : Nat} {lines : List (List Char
       · exact b2 _ h
     · rw [lastEnd_append, ← a3, b3]
 
+theorem tokenize_ok {cfg : Cfg} {re : Re} {lines : List (List Char)} {toks : List Tok}
+    (h : tokenize Bases.std cfg re lines = .ok toks) :
+    ∃ st ts, RunLines cfg re 0 lines ⟨⟨1, 1⟩, none⟩ st ts ∧ st.span = none ∧
+      toks = ts ++ [endTok cfg st.prevEnd] := by
+  unfold tokenize at h
+  split at h
+  · cases h
+  · rename_i st ts hs
+    split at h
+    · cases h
+    · rename_i hn
+      cases h
+      exact ⟨st, ts, scanLines_run _ _ _ _ _ _ _ hs, hn, rfl⟩
+
+theorem StInv_init : StInv 0 0 ⟨⟨1, 1⟩, none⟩ := by unfold StInv; simp
+
+theorem Linked_get {p : Pos} {l : List Tok} (h : Linked p l) {k : Nat} {t u : Tok}
+    (ht : l[k]? = some t) (hu : l[k + 1]? = some u) : Rel t.e u.s := by
+  induction l generalizing p k with
+  | nil => simp at ht
+  | cons a l ih =>
+    cases k with
+    | zero =>
+      simp at ht; subst ht
+      cases l with
+      | nil => simp at hu
+      | cons b l => simp at hu; subst hu; exact h.2.1
+    | succ k =>
+      simp at ht hu
+      exact ih h.2 ht hu
+
+theorem Linked_head {p : Pos} {l : List Tok} (h : Linked p l) {t : Tok} (ht : l[0]? = some t) :
+    Rel p t.s := by
+  cases l with
+  | nil => simp at ht
+  | cons a l => simp at ht; subst ht; exact h.1
+
+theorem Linked_lower {p : Pos} {l : List Tok} (h : Linked p l) (hw : ∀ t ∈ l, t.s ≤ t.e) :
+    ∀ t ∈ l, p ≤ t.s := by
+  induction l generalizing p with
+  | nil => simp
+  | cons a l ih =>
+    intro t ht
+    simp at ht
+    rcases ht with rfl | ht
+    · exact h.1.le
+    · exact Pos.le_trans (Pos.le_trans h.1.le (hw a (by simp))) (ih h.2 (fun t ht => hw t (by simp [ht])) t ht)
+
+theorem Linked_pairwise {p : Pos} {l : List Tok} (h : Linked p l) (hw : ∀ t ∈ l, t.s ≤ t.e) :
+    l.Pairwise (fun t u => t.e ≤ u.s) := by
+  induction l generalizing p with
+  | nil => simp
+  | cons a l ih =>
+    simp only [List.pairwise_cons]
+    exact ⟨Linked_lower h.2 (fun t ht => hw t (by simp [ht])), ih h.2 (fun t ht => hw t (by simp [ht]))⟩
+
+theorem tokenize_linked {cfg : Cfg} {re : Re} {lines : List (List Char)} {toks : List Tok}
+    (h : tokenize Bases.std cfg re lines = .ok toks) :
+    ∃ ts p, toks = ts ++ [endTok cfg p] ∧ Linked ⟨1, 1⟩ toks ∧ (∀ t ∈ ts, t.s < t.e) := by
+  obtain ⟨st, ts, hrun, _, rfl⟩ := tokenize_ok h
+  obtain ⟨h1, h2, h3⟩ := RunLines_linked hrun StInv_init
+  refine ⟨ts, st.prevEnd, rfl, ?_, h2⟩
+  refine (Linked_append _ _ _).mpr ⟨h1, ?_, trivial⟩
+  left; exact h3.symm
+
+/-! ## where a token comes from -/
+
+/-- the token was made from one match of the ordinary matcher at column `c` of line `i` -/
+def IsPlain (cfg : Cfg) (re : Re) (lines : List (List Char)) (t : Tok) (i c : Nat) (m : Match) : Prop :=
+  ∃ line, lines[i]? = some line ∧ c < line.length ∧ re.norm i c = some m ∧ c < m.stop ∧
+    ¬ m.kind ∈ cfg.spanKinds ∧ t = plainTok cfg i line c m
+
+/-- an opener matched at column `c` of line `i` -/
+def IsOpener (cfg : Cfg) (re : Re) (lines : List (List Char)) (i c : Nat) (m : Match) : Prop :=
+  ∃ line, lines[i]? = some line ∧ c < line.length ∧ re.norm i c = some m ∧ c < m.stop ∧
+    m.kind ∈ cfg.spanKinds
+
+/-- the token is a span token: opener `m` at `(i, c)`, closer found by the body matcher of that opener
+at `(j, d)`, behind the opener -/
+def IsSpanTok (cfg : Cfg) (re : Re) (lines : List (List Char)) (t : Tok) (i c : Nat) (m : Match)
+    (j d : Nat) (m' : Match) : Prop :=
+  IsOpener cfg re lines i c m ∧
+  (∃ lj, lines[j]? = some lj ∧ d < lj.length) ∧ re.body m.kind j d = some m' ∧ d < m'.stop ∧
+  (i < j ∨ (i = j ∧ m.stop ≤ d)) ∧
+  t.name = cfg.syn m.kind ∧ t.s = ⟨1 + i, c + 1⟩ ∧ t.e = ⟨1 + j, m'.stop + 1⟩
+
+def SpOrig (cfg : Cfg) (re : Re) (lines : List (List Char)) (i col : Nat) (sp : SpanSt) : Prop :=
+  ∃ i0 c m, IsOpener cfg re lines i0 c m ∧ sp.kind = m.kind ∧ sp.start = ⟨1 + i0, c + 1⟩ ∧
+    (i0 < i ∨ (i0 = i ∧ m.stop ≤ col))
+
+def Origin (cfg : Cfg) (re : Re) (lines : List (List Char)) (t : Tok) : Prop :=
+  (∃ i c m, IsPlain cfg re lines t i c m) ∨ (∃ i c m j d m', IsSpanTok cfg re lines t i c m j d m')
+
+theorem Run_origin {cfg : Cfg} {re : Re} {all : List (List Char)} {i : Nat} {line : List Char} {col : Nat}
+    {st st' : St} {ts : List Tok} (h : Run cfg re i line col st st' ts) (hl : all[i]? = some line) :
+    (∀ sp, st.span = some sp → SpOrig cfg re all i col sp) →
+    (∀ t ∈ ts, Origin cfg re all t) ∧ (∀ sp, st'.span = some sp → SpOrig cfg re all (i + 1) 0 sp) := by
+  have weaken : ∀ col sp, SpOrig cfg re all i col sp → SpOrig cfg re all (i + 1) 0 sp := by
+    intro col sp ⟨i0, c, m, h1, h2, h3, h4⟩
+    exact ⟨i0, c, m, h1, h2, h3, by omega⟩
+  induction h with
+  | done _ => intro hsp; exact ⟨by simp, fun sp hs => weaken _ _ (hsp sp hs)⟩
+  | @spanMiss col st sp hlt hs hb =>
+    intro hsp
+    refine ⟨by simp, ?_⟩
+    intro sp' hs'
+    simp at hs'; subst hs'
+    obtain ⟨i0, c, m, h1, h2, h3, h4⟩ := hsp sp hs
+    exact ⟨i0, c, m, h1, h2, h3, by omega⟩
+  | @spanClose col st sp m' st' ts hlt hs hb hadv hrun ih =>
+    intro hsp
+    obtain ⟨h1, h2⟩ := ih (by intro sp h; simp at h)
+    refine ⟨?_, h2⟩
+    intro t ht
+    simp at ht
+    rcases ht with rfl | ht
+    · obtain ⟨i0, c, m, g1, g2, g3, g4⟩ := hsp sp hs
+      right
+      refine ⟨i0, c, m, i, col, m', g1, ⟨line, hl, hlt⟩, g2 ▸ hb, hadv, g4, ?_, g3, rfl⟩
+      simp [spanTok, g2]
+    · exact h1 t ht
+  | @opener col st m st' ts hlt hs hm hadv hk hrun ih =>
+    intro hsp
+    apply ih
+    intro sp h
+    simp at h; subst h
+    exact ⟨i, col, m, ⟨line, hl, hlt, hm, hadv, hk⟩, rfl, rfl, Or.inr ⟨rfl, Nat.le_refl _⟩⟩
+  | @token col st m st' ts hlt hs hm hadv hk hrun ih =>
+    intro hsp
+    obtain ⟨h1, h2⟩ := ih (by intro sp h; simp at h)
+    refine ⟨?_, h2⟩
+    intro t ht
+    simp at ht
+    rcases ht with rfl | ht
+    · left; exact ⟨i, col, m, line, hl, hlt, hm, hadv, hk, rfl⟩
+    · exact h1 t ht
+
+theorem RunLines_origin {cfg : Cfg} {re : Re} {all : List (List Char)} {i : Nat} {lines : List (List Char)}
+    {st st' : St} {ts : List Tok} (h : RunLines cfg re i lines st st' ts) (hd : all.drop i = lines) :
+    (∀ sp, st.span = some sp → SpOrig cfg re all i 0 sp) →
+    (∀ t ∈ ts, Origin cfg re all t) ∧
+      (∀ sp, st'.span = some sp → ∃ i' , SpOrig cfg re all i' 0 sp) := by
+  induction h with
+  | nil => intro hsp; exact ⟨by simp, fun sp hs => ⟨_, hsp sp hs⟩⟩
+  | @cons i l ls st st1 st2 ts1 ts2 h1 _ ih =>
+    intro hsp
+    have hl : all[i]? = some l := by
+      have := congrArg (fun x => x[0]?) hd
+      simpa using this
+    have hd' : all.drop (i + 1) = ls := by
+      have := congrArg (fun x => x.drop 1) hd
+      simpa using this
+    obtain ⟨a1, a2⟩ := Run_origin h1 hl hsp
+    obtain ⟨b1, b2⟩ := ih hd' a2
+    refine ⟨?_, b2⟩
+    intro t ht
+    rcases List.mem_append.mp ht with h | h
+    · exact a1 t h
+    · exact b1 t h
+
+/-- every token except `$END$` was made from matches of `re` on the text -/
+theorem tokenize_origin {cfg : Cfg} {re : Re} {lines : List (List Char)} {toks : List Tok}
+    (h : tokenize Bases.std cfg re lines = .ok toks) : ∀ t ∈ toks.dropLast, Origin cfg re lines t := by
+  obtain ⟨st, ts, hrun, _, rfl⟩ := tokenize_ok h
+  have := (RunLines_origin (all := lines) hrun (by simp) (by intro sp h; simp at h)).1
+  simpa using this
+
 end SrcPos
